@@ -116,7 +116,26 @@ fn gen_vehicle(rng: &mut Rng, net: &RefNet) -> (FrontierCfg, Map<String, Value>,
 /// edge-local restrictions: road classes, vehicle restrictions, or their conjunction
 pub fn gen_edge_local(rng: &mut Rng, net: &RefNet) -> Restrictions {
     let ne = net.ne();
-    match rng.below(4) {
+    match rng.below(5) {
+        4 => {
+            // one vehicle, two restriction tables (a combined model may hold several models of the same type): the
+            // rows of a generated table are dealt out to two tables, optionally next to a road-class model
+            let (c, q, allowed) = gen_vehicle(rng, net);
+            let FrontierCfg::Vehicle { rows } = c else { unreachable!() };
+            let (mut r1, mut r2) = (vec![], vec![]);
+            for row in rows {
+                if rng.chance(0.5) {
+                    r1.push(row)
+                } else {
+                    r2.push(row)
+                }
+            }
+            let (c1, c2) = (FrontierCfg::Vehicle { rows: r1 }, FrontierCfg::Vehicle { rows: r2 });
+            let query = Value::Object(q.clone());
+            let a1 = oracle_allowed(&c1, &query, ne).unwrap_or_else(|| vec![true; ne]);
+            let a2 = oracle_allowed(&c2, &query, ne).unwrap_or_else(|| vec![true; ne]);
+            Restrictions { cfg: FrontierCfg::Combined(vec![c1, c2]), query_fields: q, allowed, inner_allowed: vec![a1, a2], kinds: vec!["combined(vehicle,vehicle)"] }
+        }
         0 => Restrictions { cfg: FrontierCfg::None, query_fields: Map::new(), allowed: vec![true; ne], inner_allowed: vec![], kinds: vec!["none"] },
         1 => {
             let (c, q, a) = gen_road_class(rng, net);
